@@ -11,6 +11,7 @@ from . import lvs, monitors, refcodec as rc
 from .common import raising_site
 
 from ndn.app_support.light_versec import compile_lvs, Checker, SemanticError, LvsModelError
+from ndn.app_support.light_versec import binary as bny
 
 RULE = ('generated schemas of 2-7 rules (references incl. the same rule twice, redefinitions, temporary rules and patterns, '
         'repeated named patterns, multi-option and multi-set constraints, inherited + added constraints, user functions) x '
@@ -24,11 +25,12 @@ FRESH = [rc.comp(8, b'zz'), rc.comp(8, b'q')]
 
 def impl_matches(checker, name):
     out = set()
+    syms = getattr(checker, 'nvf_symbols', None)     # set on the symbol-less variant: tag number -> identifier of the full model
     for rule_names, ctx in checker.match(name):
         for rn in rule_names:
             if lvs.INTERIOR.match(rn):
                 continue
-            out.add((lvs.STRIP_TMP.sub('', rn), frozenset((k, bytes(v)) for k, v in ctx.items())))
+            out.add((lvs.STRIP_TMP.sub('', rn), frozenset((syms.get(k, k) if syms is not None else k, bytes(v)) for k, v in ctx.items())))
     return out
 
 
@@ -105,6 +107,17 @@ def run(ctx):
         except Exception as e:   # noqa
             ctx.report(f'save-load-raises:{type(e).__name__}@{raising_site(e)[0]}', f'{e!r}', w)
             loaded = None
+        # the tag-symbol table is optional in the binary format: without it bindings are reported under the tag number
+        nosym = None
+        try:
+            m2 = bny.LvsModel.parse(checker.save())
+            table = {str(s_.tag): s_.ident for s_ in m2.symbols}
+            m2.symbols = []
+            nosym = Checker.load(bytes(m2.encode()), lvs.USER_FNS)
+            nosym.nvf_symbols = table
+            ctx.event('model-without-symbol-table')
+        except Exception as e:   # noqa
+            ctx.report(f'symbol-less-model-raises:{type(e).__name__}@{raising_site(e)[0]}', f'loading the model without its optional symbol table raised {e!r}', w)
         ref = lvs.Ref(schema, lvs.USER_FNS)
         alphabet = [lvs.lit(t) for t in ref.literals()] + FRESH
         L = min(ref.max_len() + 1, 7)
@@ -156,7 +169,7 @@ def run(ctx):
                         last_match[label] = name
                     except Exception as e:   # noqa
                         ctx.report(f'match-raises:{type(e).__name__}@{raising_site(e)[0]}', f'interleaved match({wn["name"]}) raised {e!r}', wn)
-            for label, ck in (('direct', checker), ('loaded', loaded)):
+            for label, ck in (('direct', checker), ('loaded', loaded)) + ((('loaded-without-symbols', nosym),) if ni % 4 == 1 else ()):
                 if ck is None:
                     continue
                 try:
@@ -194,6 +207,7 @@ def run(ctx):
     ctx.need_class('schema-with-double-reference')
     ctx.need_event('schema', 40)      # most generated schemas must have compiled, otherwise nothing was decided
     ctx.need_class('template-schema')
+    ctx.need_event('model-without-symbol-table')
     ctx.need_event('interleaved-and-abandoned-iteration')
     ctx.assumptions = ['interior tree nodes reported as #_<id> are not matches for a rule and are filtered out',
                        'constraints refer only to patterns of the rule itself or of rules it references']
